@@ -347,6 +347,25 @@ class Expander:
             newf = self._exp(e.func, node, visiting, bound)
             args = [self._exp(a, node, visiting, bound) for a in e.args]
             kws = [ast.keyword(arg=k.arg, value=self._exp(k.value, node, visiting, bound)) for k in e.keywords]
+            # a call through a variable that holds one of several package functions (f = a if c else b; f(x)): distribute
+            fal = None
+            if isinstance(newf, ast.IfExp):
+                fal = [newf.body, newf.orelse]
+            elif is_marker(newf, '__phi__'):
+                fal = list(newf.args)
+            if fal and all(isinstance(a_, ast.Name) and a_.id in P.funcs for a_ in fal) and self.inline_depth > 0:
+                from .sym import clone
+                outs = []
+                for a_ in fal:
+                    c_ = ast.Call(func=a_, args=[clone(x_) for x_ in args], keywords=[ast.keyword(arg=k_.arg, value=clone(k_.value)) for k_ in kws])
+                    r_ = self._inline(c_, e, node, visiting, bound)
+                    outs.append(r_ if r_ is not None else c_)
+                if isinstance(newf, ast.IfExp):
+                    n = ast.IfExp(test=newf.test, body=outs[0], orelse=outs[1])
+                else:
+                    n = mk('__phi__', *outs)
+                n._src = e
+                return n
             n = ast.Call(func=newf, args=args, keywords=kws)
             n._src = e
             if self.inline_depth > 0 or isinstance(newf, ast.Lambda):
